@@ -537,6 +537,12 @@ func runC13(run *core.Run) {
 			checkObjectReuse(run, r, m) // edits m in place: last use of m
 		}
 	})
+	// large regular models (the computed ladder with 2^44 rewrite paths, a chain of 220 computed relations): every
+	// entry point still answers, and leaves them alone
+	for _, m := range []*openfgav1.AuthorizationModel{computedLadder(44), computedChain(220)} {
+		checkPurity(run, m)
+		run.Count("large_regular_models_snapshotted", 1)
+	}
 	// models with missing optional parts (G1d): most calls answer with an error - the argument is still not theirs to touch
 	nd := run.N(3000, 50000)
 	core.Parallel(nd, func(i int) {
